@@ -191,6 +191,20 @@ def schedule_for(case, fe, rng, style):
     return sched
 
 
+def add_idle(case, sched, rng):
+    """threaded TCP handler only: idle periods in which recv() times out (an event with 0 bytes), placed where the connection has
+    no partly received frame (a time-out in the middle of a frame may legitimately make a server drop the fragment)"""
+    ends = [{0} | {f["start"] + f["len"] - 1 for f in sent} for sent in case.sent]
+    fed = [0] * len(case.streams)
+    out = []
+    for ci, n in sched:
+        if fed[ci - 1] in ends[ci - 1] and rng.random() < 0.4:
+            out.append((ci, 0))
+        out.append((ci, n))
+        fed[ci - 1] += n
+    return out
+
+
 def gen_c09(tier, rng):
     traces = []
     n = 900 if tier == "quick" else 8000
@@ -215,6 +229,8 @@ def gen_c09(tier, rng):
                 reqs.append((rng.choice(cfg["hosted"]), 5, bytes([8, 0, 4, 0, 0])))
             case.add_conn(build_frames(kind, reqs))
         case.schedule = schedule_for(case, fe, rng, rng.choice(["frames", "frames", "whole", "random"]))
+        if fe == "syncTcp" and k % 2 == 0:
+            case.schedule = add_idle(case, schedule_for(case, fe, rng, "random"), rng)
         pr = build_frames(kind, [(cfg["hosted"][0], 77, dm.pdu_read(3, 0, 2))])[0]
         traces.append(run_case(case, probe=None))
     # TLC-generated behaviours of ServerMC replayed into the stream front-ends
@@ -326,6 +342,15 @@ def hostile_items(kind, rng, hosted):
             body = {0: b"", 1: bytes([rng.randrange(256)]), 2: bytes(rng.randrange(256) for _ in range(rng.choice([2, 3, 4, 6, 9, 20]))),
                     3: struct.pack(">HHB", 0, 3, 200) + b"\x00\x01", 4: struct.pack(">HHB", 0, 0xFFFF, 0)}[rng.randrange(5)]
             items.append(good(bytes([fc]) + body))
+        elif c < 0.84:
+            # checksum-valid frame carrying a well-formed write-multiple request followed by more bytes than its byte count announces
+            # (whole extra registers / coils bytes): what follows the announced data is not part of the request
+            a, q = rng.choice([0, 1, 5, 30, 37]), rng.choice([1, 2, 3])
+            extra = bytes(rng.randrange(1, 256) for _ in range(rng.choice([1, 2, 2, 4, 6])))
+            pdu = rng.choice([dm.pdu_wn(16, a, q, 2 * q, [rng.randrange(256) for _ in range(2 * q)]),
+                              dm.pdu_wn(15, a, 8 * q, q, [rng.randrange(256) for _ in range(q)]),
+                              dm.pdu_rw(a, 1, a, q, 2 * q, [rng.randrange(256) for _ in range(2 * q)])])
+            items.append(good(pdu + extra))
         elif c < 0.9:
             # checksum-valid frame whose data-access PDU is internally inconsistent or out of limits (byte count vs quantity,
             # quantity beyond the limit, bad coil word, address beyond the table): must be refused without touching the store
@@ -436,11 +461,16 @@ def gen_c17(tier, rng):
         cfg = {"single": rng.choice([0, 1]), "hosted": rng.choice([[1], [1, 2], [247, 3], [0, 1], [1, 255]]), "broadcast": 0,
                "ignore": rng.choice([0, 1])}
         units = make_units(cfg)
+        if k % 5 == 4:
+            # a datastore that raises on some tables: every front-end has its own copy of the "unable to fulfil the request" branch
+            units = [[u, dm.layout(1, dm.seq_block(0, 40, fail=1), dm.seq_block(0, 40), dm.seq_block(0, 40, fail=rng.choice([0, 1])),
+                                   dm.seq_block(0, 40, fail=1))] for u, _ in units]
         reqs = []
         for j in range(rng.randint(1, 6)):
             u = rng.choice(cfg["hosted"] + cfg["hosted"] + [9, 4])
-            p = rand_request(rng, allow_other=False) if rng.random() < 0.9 else bytes([43, 14, 1, 0])
-            reqs.append((u, rng.randint(0, 65535), p))
+            c = rng.random()
+            p = rand_request(rng, allow_other=False) if c < 0.85 else (bytes([43, 14, 1, 0]) if c < 0.95 else bytes([43, 14, 0, 0]))
+            reqs.append((u, rng.randint(1, 65535), p))
         frames = build_frames(kind, reqs)
         fes = (D.STREAM_FES + D.DGRAM_FES) if kind == "tcp" else (D.STREAM_FES + ["syncSerial"])
         split = (k % 3 == 2)           # every third history: arbitrary chunk boundaries, on the stream front-ends only
@@ -565,6 +595,11 @@ def run(prop, tier):
             rep.violation("%s-%s-%s" % (t.get("fe", t.get("mode")), t["kind"], "-".join(sorted(mine))),
                           {"property": prop, "engine": module, "tag": "%s/%s" % (t.get("fe", t.get("mode")), t["kind"]), "trace": t, "verdict": v})
     rep.notes["failures_owned_by_sibling_properties"] = sibling
+    if prop == "C09":
+        # diagnostic / status requests: the state machine of spec/Device.tla through every front-end (silence and header clauses
+        # are C09's; the response data are growth beyond the listed properties and are reported as SPEC-DIVERGENCE only)
+        import devicecheck
+        devicecheck.run_into(rep, prop, tier, random.Random(seed() * 7 + 909))
     # self-test
     muts = []
     if prop == "C17":
